@@ -48,8 +48,9 @@ impl Backend {
                     },
                 };
 
-                // Range covers the whole fixture definition line
-                let range = Self::create_point_range(def_line, 0);
+                // Range covers the definition line up to the end of the name, so that it
+                // contains the selection range (required by the protocol)
+                let range = Self::create_range(def_line, 0, def_line, definition.end_char as u32);
 
                 let item = CallHierarchyItem {
                     name: definition.name.clone(),
@@ -238,7 +239,7 @@ impl Backend {
                         }
                     )),
                     uri: dep_uri,
-                    range: Self::create_point_range(dep_line, 0),
+                    range: Self::create_range(dep_line, 0, dep_line, dep_def.end_char as u32),
                     selection_range: to_range,
                     data: None,
                 };
@@ -246,7 +247,12 @@ impl Backend {
                 // Find where in the fixture the dependency is referenced
                 // (parameter position in the signature)
                 let from_ranges = self
-                    .find_parameter_ranges(&file_path, definition.line, dep_name)
+                    .find_parameter_ranges(
+                        &file_path,
+                        definition.line,
+                        definition.end_line,
+                        dep_name,
+                    )
                     .unwrap_or_else(|| vec![to_range]);
 
                 outgoing_calls.push(CallHierarchyOutgoingCall {
@@ -260,35 +266,37 @@ impl Backend {
         Ok(Some(outgoing_calls))
     }
 
-    /// Find the range(s) where a parameter name appears in a function signature.
+    /// Find the range(s) where a parameter naming `param_name` appears in the signature of
+    /// the fixture defined at `line`..`end_line`, using the parameter tokens recorded by the
+    /// analyzer (a textual search would hit the name inside other identifiers and cannot see
+    /// parameters on continuation lines).
     fn find_parameter_ranges(
         &self,
         file_path: &std::path::Path,
         line: usize,
+        end_line: usize,
         param_name: &str,
     ) -> Option<Vec<Range>> {
-        let content = self.fixture_db.file_cache.get(file_path)?;
-        let lines: Vec<&str> = content.lines().collect();
-
-        // Get the line (0-indexed internally, but definition.line is 1-indexed)
-        let line_content = lines.get(line.saturating_sub(1))?;
-
-        // Find the parameter in the line
-        if let Some(start) = line_content.find(param_name) {
-            let lsp_line = Self::internal_line_to_lsp(line);
-            let range = Range {
-                start: Position {
-                    line: lsp_line,
-                    character: start as u32,
-                },
-                end: Position {
-                    line: lsp_line,
-                    character: (start + param_name.len()) as u32,
-                },
-            };
-            return Some(vec![range]);
+        let usages = self.fixture_db.usages.get(file_path)?;
+        let ranges: Vec<Range> = usages
+            .iter()
+            .filter(|usage| {
+                usage.name == param_name && usage.line >= line && usage.line <= end_line
+            })
+            .map(|usage| {
+                let lsp_line = Self::internal_line_to_lsp(usage.line);
+                Self::create_range(
+                    lsp_line,
+                    usage.start_char as u32,
+                    lsp_line,
+                    usage.end_char as u32,
+                )
+            })
+            .collect();
+        if ranges.is_empty() {
+            None
+        } else {
+            Some(ranges)
         }
-
-        None
     }
 }
